@@ -179,6 +179,55 @@ pub fn run(ctx: &Ctx, rec: &mut Rec) {
         }
     });
 
+    // (i-c) sums with planted relations between neighbours: equal elements, the other coset member of
+    //       the same element, an element and its negation, at every position of short lists (pairwise /
+    //       batched summation strategies meet their exceptional cases on adjacent operands)
+    par(rec, |w, n, rec| {
+        let mut rng = rng_for(ctx.seed, P, w, 21);
+        let reps = ctx.scale(48, 400);
+        for rep in 0..reps {
+            if rep % n != w {
+                continue;
+            }
+            let len = 3 + rep % 7;
+            let mut items: Vec<SE> = (0..len).map(|_| zoo[rand_range(&mut rng, zoo.len())].clone()).collect();
+            // plant one or two relations
+            for plant in 0..(1 + rep % 2) {
+                let i = rand_range(&mut rng, len - 1);
+                let j = if plant == 0 { i + 1 } else { rand_range(&mut rng, len) };
+                let src = items[i].clone();
+                items[j] = match (rep / 7 + plant) % 5 {
+                    0 => src.clone(),
+                    1 => SE { l: from_pt(&ctx.c, &ctx.c.torque(&src.m)), m: ctx.c.torque(&src.m), class: "planted other-rep" },
+                    2 => SE { l: from_pt(&ctx.c, &ctx.c.neg(&src.m)), m: ctx.c.neg(&src.m), class: "planted negation" },
+                    3 => SE { l: from_pt_scaled(&ctx.c, &src.m, &b(7 + rep as u64)), m: src.m.clone(), class: "planted rescaled copy" },
+                    _ => SE { l: from_pt(&ctx.c, &ctx.c.torque(&ctx.c.neg(&src.m))), m: ctx.c.torque(&ctx.c.neg(&src.m)), class: "planted other-rep of negation" },
+                };
+            }
+            // commuting partial sums: [.., P, Q, Q, P, ..]
+            if rep % 3 == 0 && len >= 6 {
+                let (p, q) = (items[0].clone(), items[1].clone());
+                items[len - 4] = p.clone();
+                items[len - 3] = q.clone();
+                items[len - 2] = q;
+                items[len - 1] = p;
+            }
+            let mut want = ctx.c.identity();
+            for it in &items {
+                want = ctx.c.add(&want, &it.m);
+            }
+            let ls: Vec<El> = items.iter().map(|s| s.l).collect();
+            for f in &sums {
+                rec.form(f.name);
+                rec.eval(&("planted", f.name, items.iter().map(|s| s.key()).collect::<Vec<_>>()), false);
+                rec.count("sums_with_planted_neighbours", 1);
+                let ls2 = ls.clone();
+                let got = guarded(|| (f.f)(&ls2));
+                judge(ctx, rec, P, f.name, got, &want, json!({"len": len, "planted": true, "items": items.iter().map(|s| el_json(&s.l)).collect::<Vec<_>>()}));
+            }
+        }
+    });
+
     // (ii) algebraic laws through the library's own == (no model): association, commutation,
     //      neutral element, P - P
     par(rec, |w, n, rec| {
